@@ -33,6 +33,7 @@ class Profile:
         self.p_event_param_guard = 0.05
         self.p_active_guard = 0.12     # guards that also read the configuration through active()
         self.active_in_actions = True  # actions may read the configuration through active()
+        self.use_k = False             # actions may update k, a variable that exists only in the initial context
         self.use_tick = True           # actions may call tick() (a callable of the initial context moving the clock)
         self.shuffle_names = True
         self.events = None            # event alphabet of the transitions (default EVENTS)
@@ -53,7 +54,7 @@ class Gen:
         self.uniq = 100
 
     def fresh_names(self, n):
-        names = NAMES[:max(n, 1) + 6]
+        names = NAMES[:max(n, 1) + 20]
         if self.p.shuffle_names:
             self.rng.shuffle(names)
         return names
@@ -91,7 +92,8 @@ class Gen:
                 else:
                     parts.append("send('%s')" % ev)
             elif r < 0.75:
-                parts.append(self.rng.choice(['x = x + 1', 'y = y + x', 'x = x - 1', 'y = x', 'x = 0', 'y = y + 1']))
+                parts.append(self.rng.choice(['x = x + 1', 'y = y + x', 'x = x - 1', 'y = x', 'x = 0', 'y = y + 1'] +
+                                             (['k = k + 1', 'k = k + x'] if self.p.use_k else [])))
             elif r < 0.83 and self.p.active_in_actions:
                 parts.append("y = y + (1 if active('%s') else 0)" % self.rng.choice(NAMES[:12]))
             elif r < 0.9:
@@ -198,8 +200,12 @@ class Gen:
                 # initial child: a non-history child (or, sometimes, the history state itself)
                 hist = None
                 if rng.random() < p.p_history:
-                    hist = add(rng.choice(['shallow', 'deep']), nm)
+                    hk = rng.choice(['shallow', 'deep'])
+                    hist = add(hk, nm)
                     states[hist][2].memory = rng.choice(made)
+                    if rng.random() < 0.3:       # a compound state may own both kinds
+                        h2 = add('deep' if hk == 'shallow' else 'shallow', nm)
+                        states[h2][2].memory = rng.choice(made)
                 init = rng.choice(made)
                 if hist is not None and rng.random() < 0.15:
                     init = hist
@@ -377,19 +383,34 @@ def nested_parallel_chart(rng):
                 decl.append((BasicState(a, on_exit=code()), sub))
                 decl.append((BasicState(b, on_entry=code()), sub))
                 trans.append((a, b))                       # stays in its region of Q
-                if rng.random() < 0.5:
+                if rng.random() < 0.7:
+                    trans.append((b, a))                   # ... and back, so that the region keeps reacting
+                if rng.random() < 0.7:
                     trans.append((a, extra))               # leaves Q but stays inside the region of P
                 if rng.random() < 0.3:
                     trans.append((sub, b))
+                if rng.random() < 0.7:
+                    trans.append((extra, b))               # from outside Q into a state nested in ONE region of Q
             inits.append((cur, q))
         else:
             a, b = next(it), next(it)
             decl.append((BasicState(a, on_exit=code()), cur))
             decl.append((BasicState(b, on_entry=code()), cur))
             trans.append((a, b))
+            if rng.random() < 0.7:
+                trans.append((b, a))
             if rng.random() < 0.3:
                 trans.append((a, outside))                 # leaves P altogether
             inits.append((cur, a))
+            if rng.random() < 0.7:
+                # a compound sibling with a history state, entered through the history state from outside it
+                box, h, c1, c2 = next(it), next(it), next(it), next(it)
+                decl.append((CompoundState(box, on_exit=code()), cur))
+                decl.append((rng.choice([ShallowHistoryState, DeepHistoryState])(h, memory=c1), box))
+                decl.append((BasicState(c1), box))
+                decl.append((BasicState(c2, on_entry=code()), box))
+                inits.append((box, c1))
+                trans.extend([(a, h), (b, h), (c1, c2), (box, a)])
         for up, down in zip(chain, chain[1:]):
             inits.append((up, down))
         return r
